@@ -36,6 +36,7 @@ def check(ck):
     r15_5(ck)
     r15_6(ck)
     r15_7(ck)
+    r15_9(ck)
 
 
 def r15_1(ck):
@@ -388,8 +389,8 @@ def r15_7(ck):
                 v = s2.value
                 ok = isinstance(v, ast.Call) and A.call_name(v) in (
                     'deep_merge', 'deep_merge_check') and A.unparse(
-                    A.arg_of(v, 0)) == attr and A.is_name(
-                    A.arg_of(v, 1), A.params_of(f.node)[1])
+                    A.arg_of(v, 0)) == attr and A.params_of(
+                    f.node)[1] in A.names_in(A.arg_of(v, 1))
                 ck.require(ok, 'R15.7', f, s2,
                            '%s is deep-merged with the new declaration'
                            % attr,
@@ -410,3 +411,58 @@ def r15_7(ck):
         if v.rule == 'R16.5':
             v.rule = 'R15.7'
     ck.rules.pop('R16.5', None)
+
+
+def r15_9(ck, rule='R15.9'):
+    ck.rule(rule, 'declared settings win over derived ones and explicit '
+            'flags over inherited ones in the leaf section of '
+            "_apply_config: units / serializer inferred from a quantity "
+            "default never replace declared ones (`self.x = self.x or "
+            "...`), and a leaf's `_emit` is config.get('_emit', self.emit) "
+            '(an explicit False overrides an earlier True)')
+    f = ck.fn('Store._apply_config', 'core.store')
+    cfg = cfg_of(f.node)
+    n = 0
+    for s2 in A.walk_no_nested(f.node):
+        if not isinstance(s2, ast.Assign):
+            continue
+        tgt = A.unparse(s2.targets[0])
+        if tgt not in ('self.units', 'self.serializer'):
+            continue
+        g = cfg.guards(cfg.node(s2))
+        inferred = any(a[0] == 'isinstance' and 'self.default' in a[1]
+                       and 'Quantity' in a[2] for a in g)
+        if not inferred:
+            continue
+        n += 1
+        v = s2.value
+        ok = isinstance(v, ast.BoolOp) and isinstance(v.op, ast.Or) and \
+            A.unparse(v.values[0]) == tgt
+        ck.require(ok, rule, f, s2,
+                   '%s inferred from a quantity default is only a fallback '
+                   '(`%s = %s or ...`)' % (tgt, tgt, tgt),
+                   '%s inferred from the default replaces a declared one '
+                   '(%s): the variable is kept / emitted in the unit or '
+                   'form of the default instead of the declared one' % (
+                       tgt, A.short(s2, 70)), s2)
+    ck.floor(rule, n, 4, 'inferred units/serializer assignments')
+    hit = False
+    for s2 in A.walk_no_nested(f.node):
+        if isinstance(s2, ast.Assign) and A.unparse(
+                s2.targets[0]) == 'self.emit':
+            hit = True
+            v = s2.value
+            ok = isinstance(v, ast.Call) and A.call_name(v) == 'get' and \
+                A.is_name(A.call_receiver(v), 'config') and len(
+                    v.args) == 2 and isinstance(
+                    v.args[0], ast.Constant) and v.args[0].value == \
+                '_emit' and A.unparse(v.args[1]) == 'self.emit'
+            ck.require(ok, rule, f, s2,
+                       "a leaf's emit flag is config.get('_emit', "
+                       'self.emit)',
+                       "the leaf emit flag is computed as %s: an explicit "
+                       "'_emit': False (store_schema, a later declaration) "
+                       'cannot switch an emitting variable off' %
+                       A.unparse(v), s2)
+    ck.require(hit, rule, f, 'self.emit', 'leaf emit flag is assigned',
+               'the leaf section no longer sets self.emit')
